@@ -56,7 +56,16 @@ FixFrom(ops, in) ==
     LET nx == Sweep(ops, in, Len(ops))
     IN  IF nx = in THEN in ELSE FixFrom(ops, nx)
 
-LiveIn(ops)  == FixFrom(ops, [i \in 1..Len(ops) |-> {}])
+\* the bottom element [i \in 1..n |-> {}], written as an explicit sequence (built by doubling) so
+\* that TLC holds it as an array: EXCEPT on a function *expression* is kept as a list of overrides
+\* that every later application scans
+RECURSIVE Bottom(_)
+Bottom(n) ==
+    IF n = 0 THEN <<>>
+    ELSE LET h == Bottom(n \div 2)
+         IN  IF n % 2 = 0 THEN h \o h ELSE Append(h \o h, {})
+
+LiveIn(ops)  == FixFrom(ops, Bottom(Len(ops)))
 
 LiveOutFrom(ops, in) == [i \in 1..Len(ops) |-> OutOf(ops, in, i)]
 
